@@ -47,6 +47,7 @@ class Scheduler:
         self.pos = 0
         self.cv = threading.Condition()
         self.timeouts = 0
+        self.entered = []          # order in which the kernel invocations were admitted (under the lock)
 
     def enter(self, pair):
         with self.cv:
@@ -55,6 +56,7 @@ class Scheduler:
                 self.timeouts += 1
                 return
             self.pos += 1
+            self.entered.append(pair)
             self.cv.notify_all()
 
 
@@ -87,6 +89,7 @@ def run_threaded(Nu, Nv, nthreads, rng, schedule=None):
     tlog = list(log)
     log.clear()
     run_threaded.timeouts = sched.timeouts if sched is not None else 0
+    run_threaded.entered = list(sched.entered) if sched is not None else None
     sched = None
     ser = BilinearForm(form)._assemble(ub, vb)
     return thr, ser, tlog, before == after
@@ -218,7 +221,12 @@ def run(ctx):
             nsched += 1
             ctx.case({"Nu": Nu, "Nv": Nv, "n": n, "schedule": s}, nontrivial=True,
                      sample={"Nu": Nu, "Nv": Nv, "nthreads": n, "schedule": s} if nsched == 3 else None)
-            order = [(i, j) for (_, i, j) in log]
+            # the admission order recorded under the scheduler's lock (appending to the log happens after the
+            # lock is released and may be overtaken)
+            order = run_threaded.entered if run_threaded.entered is not None else [(i, j) for (_, i, j) in log]
+            if sorted((i, j) for (_, i, j) in log) != sorted(tuple(p) for p in s):
+                ctx.violation("a local index pair was not computed exactly once under a forced schedule",
+                              {"Nu": Nu, "Nv": Nv, "nthreads": n, "schedule": s}, {"what": "not-once"})
             inp = {"Nu": Nu, "Nv": Nv, "nthreads": n, "schedule": s}
             if order != list(s) and run_threaded.timeouts:
                 ctx.count("forced-schedule-timed-out(machine load, inconclusive)")
